@@ -91,6 +91,9 @@ class FormInfo:
         c = C11Canon("rel")
         c._collect(form, set())
         c._finalise()
+        from .canon import _number_indices_first
+
+        _number_indices_first(c, [form])
         strict = c.any(form)
         self.strict = _digest(strict)
         ids = sorted(c.meshes)
@@ -104,6 +107,8 @@ class FormInfo:
             for perm in itertools.permutations(range(len(ids))):
                 c.meshes = dict(zip(ids, perm))
                 c.idx = {}
+                c.pending = []
+                _number_indices_first(c, [form])
                 r = repr(c.any(form))
                 if best is None or r < best:
                     best = r
